@@ -350,7 +350,8 @@ class Parser:
                 raise ParseError(
                     "Expected test command, '{}' found instead".format(test.name)
                 )
-            self.__curcommand.check_next_arg("test", test)
+            if not self.__curcommand.check_next_arg("test", test):
+                return False
             self.__expected = test.get_expected_first()
             self.__curcommand = test
             return self.__check_command_completion(testsemicolon=False)
